@@ -18,8 +18,49 @@ def codon_new(interp, cls, args, kwargs):
     return o
 
 
+def make_parent(interp, args, kwargs):
+    """inscripta.biocantor.parent.make_parent is a functools.singledispatch function; the registered implementations
+    (parent/__init__.py, sequence/__init__.py, location/__init__.py) are: str -> Parent(id=obj); Parent -> obj;
+    Sequence -> Parent(sequence=obj); Location -> Parent(location=obj); Strand -> Parent(strand=obj); else TypeError.
+    The dispatch table is re-read from the AST on every run (check_make_parent_table) and must equal this list."""
+    from pyvc.values import EnumVal, Opaque
+    obj = interp.resolve(args[0])
+    repo = interp.repo
+    P = repo.find("parent.parent.Parent")
+    if isinstance(obj, str):
+        return interp.instantiate(P, [], {"id": obj})
+    if isinstance(obj, Obj):
+        names = [c.name for c in obj.cls.mro(repo)]
+        if "Parent" in names:
+            return obj
+        if "Sequence" in names:
+            return interp.instantiate(P, [], {"sequence": obj})
+        if "Location" in names:
+            return interp.instantiate(P, [], {"location": obj})
+    if isinstance(obj, EnumVal) and obj.cls.name == "Strand":
+        return interp.instantiate(P, [], {"strand": obj})
+    raise PyExc("TypeError", "make_parent: unsupported type")
+
+
+def bio_seq(interp, args, kwargs):
+    """Bio.Seq.Seq(data): stores its argument; str() of it gives the data back (assumed contract)."""
+    return args[0]
+
+
+def empty_location(interp, args, kwargs):
+    """EmptyLocation(): the module-level singleton accessor (it caches the instance in a class attribute)."""
+    d = interp.__dict__
+    if "_empty_location" not in d:
+        d["_empty_location"] = Obj(interp.repo.find("location.location_impl._EmptyLocation"))
+    return d["_empty_location"]
+
+
 SUMMARIES = {
+    "location.location_impl.EmptyLocation": empty_location,
+    "parent.make_parent": make_parent,
     "gene.codon.Codon.__new__": codon_new,
 }
 LOOPS = {}
-LIB = {"summaries": SUMMARIES, "loops": LOOPS, "attr_hooks": {}, "externals": {}}
+EXTERNALS = {"Bio.Seq.Seq": bio_seq}
+DEFAULT = ["parent.make_parent", "location.location_impl.EmptyLocation", "gene.codon.Codon.__new__"]
+LIB = {"default": DEFAULT, "summaries": SUMMARIES, "loops": LOOPS, "attr_hooks": {}, "externals": EXTERNALS}
